@@ -647,3 +647,423 @@ def class_resolver(mod: ast.Module, cls: Optional[ast.ClassDef] = None, exclude=
             return None if f.id in exclude else funcs.get(f.id)
         return None
     return resolve
+
+
+# ---------------------------------------------------------------------------------------------------------------- load-time canonical form
+# Applied to every module when it is loaded (core.Ctx.parse, interp.Program), before any rule looks at it, so that the rules see one spelling of
+# trivially equivalent programs.  Both rewrites are semantics preserving:
+#
+#   FORWARD  `t = e` directly followed by the only statement that reads `t` (t a local bound once, read once, the read not inside a lambda /
+#            comprehension / nested def / loop body, and nothing with an effect -- a call -- evaluated before it in that statement):
+#            the read is replaced by `e` and the assignment dropped.  (`ret = f(x); return ret` == `return f(x)`.)
+#   CMPDIR   a two-operand comparison whose sides are side-effect free (names, attributes, constants, len()) is oriented: a constant goes to the
+#            right (`0 < n` -> `n > 0`); otherwise `>` / `>=` become `<` / `<=`; `==` / `!=` order their operands by text.
+
+_FLIP_DIR = {ast.Lt: ast.Gt, ast.Gt: ast.Lt, ast.LtE: ast.GtE, ast.GtE: ast.LtE, ast.Eq: ast.Eq, ast.NotEq: ast.NotEq}
+
+
+def _simple_operand(e) -> bool:
+    return all(isinstance(x, (ast.Name, ast.Attribute, ast.Constant, ast.expr_context)) or
+               (isinstance(x, ast.Call) and isinstance(x.func, ast.Name) and x.func.id == "len" and not x.keywords) for x in ast.walk(e))
+
+
+class _CmpDir(ast.NodeTransformer):
+    def visit_Compare(self, n):
+        self.generic_visit(n)
+        if len(n.ops) != 1 or type(n.ops[0]) not in _FLIP_DIR:
+            return n
+        l, r = n.left, n.comparators[0]
+        if not (_simple_operand(l) and _simple_operand(r)):
+            return n
+        cl, cr = isinstance(l, ast.Constant), isinstance(r, ast.Constant)
+        swap = False
+        if cl != cr:
+            swap = cl
+        elif isinstance(n.ops[0], (ast.Gt, ast.GtE)):
+            swap = True
+        elif isinstance(n.ops[0], (ast.Eq, ast.NotEq)):
+            swap = ast.unparse(r) < ast.unparse(l)
+        if swap:
+            n.left, n.comparators, n.ops = r, [l], [_FLIP_DIR[type(n.ops[0])]()]
+        return n
+
+
+def _header_exprs(s):
+    """the expressions of statement `s` that are evaluated once, first, when control reaches it"""
+    if isinstance(s, (ast.Return, ast.Expr)):
+        return [s.value] if s.value is not None else []
+    if isinstance(s, ast.Assign):
+        # value first, then the targets' sub-expressions; only the value is a forwarding site
+        return [s.value]
+    if isinstance(s, ast.AnnAssign):
+        return [s.value] if s.value is not None else []
+    if isinstance(s, ast.AugAssign):
+        return []          # target is read before the value
+    if isinstance(s, ast.If):
+        return [s.test]
+    if isinstance(s, ast.For):
+        return [s.iter]
+    if isinstance(s, ast.Raise):
+        return [s.exc] if s.exc is not None and s.cause is None else []
+    if isinstance(s, ast.Assert):
+        return []
+    return []
+
+
+def _use_is_first_effect(expr, name) -> Optional[ast.Name]:
+    """the single Load of `name` in expr if it exists outside nested scopes and no call / await / yield is evaluated before it; else None"""
+    found = []
+    blocked = [False]
+
+    def contains(n):
+        return any(isinstance(x, ast.Name) and x.id == name for x in ast.walk(n))
+
+    def walk(n):
+        if found or blocked[0]:
+            return
+        if isinstance(n, ast.Name):
+            if n.id == name and isinstance(n.ctx, ast.Load):
+                found.append(n)
+            return
+        if isinstance(n, (ast.Lambda, ast.ListComp, ast.SetComp, ast.DictComp, ast.GeneratorExp)):
+            if contains(n):
+                blocked[0] = True
+            return
+        if isinstance(n, (ast.BoolOp, ast.IfExp)):
+            # short-circuit: only the first operand / the test is evaluated unconditionally
+            first = n.values[0] if isinstance(n, ast.BoolOp) else n.test
+            walk(first)
+            if not found and contains(n):
+                blocked[0] = True
+            return
+        if isinstance(n, (ast.Await, ast.Yield, ast.YieldFrom, ast.NamedExpr)):
+            if contains(n):
+                blocked[0] = True
+            else:
+                blocked[0] = True
+            return
+        if isinstance(n, ast.Call):
+            for ch in [n.func] + list(n.args) + [k.value for k in n.keywords]:
+                walk(ch)
+                if found or blocked[0]:
+                    return
+            # the call itself happens here: a use after it would be reordered
+            blocked[0] = True
+            return
+        for ch in ast.iter_child_nodes(n):
+            if isinstance(ch, ast.expr_context):
+                continue
+            walk(ch)
+            if found or blocked[0]:
+                return
+    walk(expr)
+    return found[0] if found else None
+
+
+def _own_nodes(fn):
+    """nodes of fn's body, nested function / class bodies included (a nested read of a local keeps it alive)"""
+    for s in fn.body:
+        yield from ast.walk(s)
+
+
+def forward_temps(fn) -> int:
+    """FORWARD on one function (in place); returns the number of temporaries forwarded"""
+    total = 0
+    params = {a.arg for a in fn.args.posonlyargs + fn.args.args + fn.args.kwonlyargs}
+    if fn.args.vararg:
+        params.add(fn.args.vararg.arg)
+    if fn.args.kwarg:
+        params.add(fn.args.kwarg.arg)
+    while True:
+        stores: Dict[str, int] = {}
+        loads: Dict[str, int] = {}
+        barred = set(params)
+        for n in _own_nodes(fn):
+            if isinstance(n, ast.Name):
+                if isinstance(n.ctx, ast.Load):
+                    loads[n.id] = loads.get(n.id, 0) + 1
+                else:
+                    stores[n.id] = stores.get(n.id, 0) + 1
+            elif isinstance(n, (ast.Global, ast.Nonlocal)):
+                barred |= set(n.names)
+            elif isinstance(n, ast.arg):
+                barred.add(n.arg)
+            elif isinstance(n, ast.ExceptHandler) and n.name:
+                barred.add(n.name)
+            elif isinstance(n, ast.Call) and isinstance(n.func, ast.Name) and n.func.id in ("locals", "vars", "eval", "exec"):
+                return total
+        changed = False
+        lists = []
+        for n in [fn] + [x for x in _own_nodes(fn)]:
+            if isinstance(n, (ast.FunctionDef, ast.AsyncFunctionDef, ast.ClassDef)) and n is not fn:
+                continue
+            for fld in ("body", "orelse", "finalbody"):
+                v = getattr(n, fld, None)
+                if isinstance(v, list) and v and all(isinstance(x, ast.stmt) for x in v):
+                    lists.append(v)
+            if isinstance(n, ast.Try):
+                for h in n.handlers:
+                    lists.append(h.body)
+        nested = set()
+        for n in _own_nodes(fn):
+            if isinstance(n, (ast.FunctionDef, ast.AsyncFunctionDef, ast.ClassDef)):
+                for x in ast.walk(n):
+                    if x is not n:
+                        nested.add(id(x))
+        # a name bound several times, every binding `t = e` directly followed by a statement holding the one read that binding reaches
+        # (reads == bindings): each pair is independent of the others
+        paired = set()
+        cand: Dict[str, int] = {}
+        for lst in lists:
+            if lst and id(lst[0]) in nested:
+                continue
+            for a_, b_ in zip(lst, lst[1:]):
+                if isinstance(a_, ast.Assign) and len(a_.targets) == 1 and isinstance(a_.targets[0], ast.Name):
+                    t_ = a_.targets[0].id
+                    if sum(isinstance(x, ast.Name) and x.id == t_ and isinstance(x.ctx, ast.Load) for x in ast.walk(b_)) == 1 \
+                            and not any(isinstance(x, ast.Name) and x.id == t_ for x in ast.walk(a_.value)) \
+                            and any(_use_is_first_effect(h, t_) is not None for h in _header_exprs(b_)[:1]):
+                        cand[t_] = cand.get(t_, 0) + 1
+        for t_, k_ in cand.items():
+            if k_ > 1 and stores.get(t_) == k_ and loads.get(t_) == k_:
+                paired.add(t_)
+        for lst in lists:
+            if lst and id(lst[0]) in nested:
+                continue
+            i = 0
+            while i + 1 < len(lst):
+                s, nx = lst[i], lst[i + 1]
+                if isinstance(s, ast.Assign) and len(s.targets) == 1 and isinstance(s.targets[0], ast.Name):
+                    t = s.targets[0].id
+                    if t not in barred and (stores.get(t) == 1 and loads.get(t) == 1 or t in paired) and not any(isinstance(x, (ast.Yield, ast.YieldFrom, ast.Await, ast.NamedExpr))
+                                                                                              for x in ast.walk(s.value)):
+                        for h in _header_exprs(nx):
+                            use = _use_is_first_effect(h, t)
+                            if use is not None:
+                                class Sub(ast.NodeTransformer):
+                                    def visit_Name(self_, n):
+                                        return ast.copy_location(copy.deepcopy(s.value), n) if n is use else n
+                                for fld, v in list(ast.iter_fields(nx)):
+                                    if v is h:
+                                        setattr(nx, fld, Sub().visit(h))
+                                del lst[i]
+                                changed = True
+                                total += 1
+                                break
+                            break    # only the first header expression is evaluated first
+                        if changed:
+                            break
+                i += 1
+            if changed:
+                break
+        if not changed:
+            return total
+
+
+def _exits(block) -> bool:
+    return bool(block) and isinstance(block[-1], (ast.Return, ast.Raise, ast.Continue, ast.Break))
+
+
+def _callfree(e) -> bool:
+    return not any(isinstance(x, (ast.Call, ast.Await, ast.Yield, ast.YieldFrom, ast.NamedExpr)) for x in ast.walk(e))
+
+
+def nnf(t, negate=False):
+    """negation normal form of a test: negations pushed through and / or / not and into `in` / `is` comparisons (exact: `not` of a boolean
+    combination evaluates the same operands' truth values in the same order with the same short-circuits); `==` / `!=` / orderings are only
+    flipped between integers-looking operands (a constant or len() on one side)."""
+    if isinstance(t, ast.UnaryOp) and isinstance(t.op, ast.Not):
+        return nnf(t.operand, not negate)
+    if isinstance(t, ast.BoolOp):
+        if negate:
+            return ast.copy_location(ast.BoolOp(ast.Or() if isinstance(t.op, ast.And) else ast.And(), [nnf(v, True) for v in t.values]), t)
+        return ast.copy_location(ast.BoolOp(t.op, [nnf(v, False) for v in t.values]), t)
+    if not negate:
+        return t
+    if isinstance(t, ast.Compare) and len(t.ops) == 1:
+        op = type(t.ops[0])
+        exact = {ast.In: ast.NotIn, ast.NotIn: ast.In, ast.Is: ast.IsNot, ast.IsNot: ast.Is}
+        intlike = {ast.Eq: ast.NotEq, ast.NotEq: ast.Eq, ast.Lt: ast.GtE, ast.GtE: ast.Lt, ast.Gt: ast.LtE, ast.LtE: ast.Gt}
+
+        def isint(e):
+            return (isinstance(e, ast.Constant) and isinstance(e.value, int)) or (isinstance(e, ast.Call) and isinstance(e.func, ast.Name) and e.func.id == "len")
+        if op in exact:
+            return ast.copy_location(ast.Compare(t.left, [exact[op]()], t.comparators), t)
+        if (op in (ast.Eq, ast.NotEq) and (isint(t.left) or isint(t.comparators[0]))) or (op in intlike and isint(t.left) and isint(t.comparators[0])):
+            return ast.copy_location(ast.Compare(t.left, [intlike[op]()], t.comparators), t)
+    return ast.copy_location(ast.UnaryOp(ast.Not(), t), t)
+
+
+def _neg_count(t) -> int:
+    n = 0
+    for x in ast.walk(t):
+        if isinstance(x, ast.UnaryOp) and isinstance(x.op, ast.Not):
+            n += 1
+        elif isinstance(x, ast.Compare):
+            n += sum(isinstance(o, (ast.NotIn, ast.IsNot, ast.NotEq)) for o in x.ops)
+    return n
+
+
+class _Tests(ast.NodeTransformer):
+    """NNF on every test; POLAR: a two-armed if whose negated test has fewer negations swaps its arms"""
+
+    polar = False
+
+    def visit_If(self, n):
+        self.generic_visit(n)
+        n.test = nnf(n.test)
+        if n.orelse and self.polar:
+            alt = nnf(copy.deepcopy(n.test), True)
+            if _neg_count(alt) < _neg_count(n.test):
+                n.test, n.body, n.orelse = alt, n.orelse, n.body
+        return n
+
+    def visit_While(self, n):
+        self.generic_visit(n)
+        n.test = nnf(n.test)
+        return n
+
+    def visit_IfExp(self, n):
+        self.generic_visit(n)
+        n.test = nnf(n.test)
+        alt = nnf(copy.deepcopy(n.test), True)
+        if _neg_count(alt) < _neg_count(n.test):
+            n.test, n.body, n.orelse = alt, n.orelse, n.body
+        return n
+
+    def visit_Assert(self, n):
+        self.generic_visit(n)
+        n.test = nnf(n.test)
+        return n
+
+
+def _raise_only(block) -> bool:
+    return len(block) == 1 and isinstance(block[0], ast.Raise)
+
+
+def flatten_else(stmts: List[ast.stmt]) -> List[ast.stmt]:
+    """ELSE: a two-armed if with an exiting arm becomes the guard form -- the exiting arm stays under the if (the test negated when that is the
+    else arm), the other arm follows it.  When both arms exit, a raise-only arm is the guard.  Recursively over every statement list."""
+    out: List[ast.stmt] = []
+    for s in stmts:
+        for fld in ("body", "orelse", "finalbody"):
+            v = getattr(s, fld, None)
+            if isinstance(v, list) and v and all(isinstance(x, ast.stmt) for x in v):
+                setattr(s, fld, flatten_else(v))
+        if isinstance(s, ast.Try):
+            for h in s.handlers:
+                h.body = flatten_else(h.body)
+        if isinstance(s, ast.If) and s.orelse:
+            be, oe = _exits(s.body), _exits(s.orelse)
+            swap = (oe and not be) or (be and oe and _raise_only(s.orelse) and not _raise_only(s.body))
+            if swap:
+                s.test, s.body, s.orelse = nnf(s.test, True), s.orelse, s.body
+                be = True
+            if be:
+                tail = s.orelse
+                s.orelse = []
+                out.append(s)
+                out.extend(tail)
+                continue
+        out.append(s)
+    return out
+
+
+def _sig_tables(tree: ast.Module):
+    classes = {c.name: c for c in tree.body if isinstance(c, ast.ClassDef)}
+    funcs = {f.name: f for f in tree.body if isinstance(f, ast.FunctionDef)}
+
+    def methods(c, seen=()):
+        out = {}
+        if c is None or c.name in seen:
+            return out
+        for b in c.bases:
+            bn = ast.unparse(b).split(".")[-1]
+            if bn in classes:
+                out.update(methods(classes[bn], seen + (c.name,)))
+        out.update({m.name: m for m in c.body if isinstance(m, ast.FunctionDef)})
+        return out
+    return classes, funcs, methods
+
+
+def _canon_call(call: ast.Call, fn: ast.FunctionDef, skip_first: bool) -> bool:
+    """KW: required parameters positionally, defaulted / keyword-only ones by keyword, in signature order"""
+    a = fn.args
+    if a.vararg is not None or a.posonlyargs or any(isinstance(x, ast.Starred) for x in call.args) or any(k.arg is None for k in call.keywords):
+        return False
+    params = [x.arg for x in a.args][1 if skip_first else 0:]
+    ndef = len(a.defaults)
+    required = params[:len(params) - ndef] if ndef else list(params)
+    defaulted = params[len(params) - ndef:] if ndef else []
+    kwonly = [x.arg for x in a.kwonlyargs]
+    if len(call.args) > len(params):
+        return False
+    bound = {}
+    order = []
+    for nm, v in zip(params, call.args):
+        bound[nm] = v
+        order.append(nm)
+    for k in call.keywords:
+        if k.arg in bound or k.arg not in params + kwonly:
+            return False
+        bound[k.arg] = k.value
+        order.append(k.arg)
+    if any(r not in bound for r in required):
+        return False
+    new_order = [r for r in required] + [d for d in defaulted if d in bound] + [k for k in kwonly if k in bound]
+    if new_order != order and not all(_callfree(v) for v in bound.values()):
+        return False
+    new_args = [bound[r] for r in required]
+    new_kw = [ast.keyword(d, bound[d]) for d in defaulted + kwonly if d in bound]
+    changed = [ast.dump(x) for x in call.args] != [ast.dump(x) for x in new_args] or [(k.arg) for k in call.keywords] != [k.arg for k in new_kw]
+    call.args, call.keywords = new_args, new_kw
+    return changed
+
+
+def canon_calls(tree: ast.Module) -> int:
+    classes, funcs, methods = _sig_tables(tree)
+    n = 0
+    for c in classes.values():
+        ms = methods(c)
+        for m in c.body:
+            if not isinstance(m, ast.FunctionDef):
+                continue
+            for call in ast.walk(m):
+                if isinstance(call, ast.Call) and isinstance(call.func, ast.Attribute) and isinstance(call.func.value, ast.Name) \
+                        and call.func.value.id in ("self", "cls") and call.func.attr in ms:
+                    tgt = ms[call.func.attr]
+                    decos = {ast.unparse(d) for d in tgt.decorator_list}
+                    if "property" in decos:
+                        continue
+                    n += _canon_call(call, tgt, skip_first="staticmethod" not in decos)
+    shadow = set()
+    for x in ast.walk(tree):
+        if isinstance(x, ast.Name) and isinstance(x.ctx, ast.Store):
+            shadow.add(x.id)
+        elif isinstance(x, ast.arg):
+            shadow.add(x.arg)
+    for call in ast.walk(tree):
+        if isinstance(call, ast.Call) and isinstance(call.func, ast.Name) and call.func.id in funcs and call.func.id not in shadow \
+                and not funcs[call.func.id].decorator_list:
+            n += _canon_call(call, funcs[call.func.id], skip_first=False)
+    return n
+
+
+def canon_module(tree: ast.Module) -> ast.Module:
+    """FORWARD + CMPDIR over every function of the module (in place); records the counts on the tree"""
+    nf = 0
+    _Tests().visit(tree)
+    for n in tree.body:
+        if isinstance(n, (ast.FunctionDef, ast.AsyncFunctionDef, ast.ClassDef)):
+            n.body = flatten_else(n.body)        # recursive: methods and nested functions included
+    pol = _Tests()
+    pol.polar = True
+    pol.visit(tree)
+    for n in ast.walk(tree):
+        if isinstance(n, (ast.FunctionDef, ast.AsyncFunctionDef)):
+            nf += forward_temps(n)
+    nk = canon_calls(tree)
+    _CmpDir().visit(tree)
+    ast.fix_missing_locations(tree)
+    tree._canon = {"forwarded": nf, "calls": nk}
+    return tree
